@@ -11,12 +11,23 @@ def _dense(shape, seed):
     n = 1
     for s in shape:
         n *= s
+    if n > 5000:
+        i = numpy.arange(n, dtype=numpy.int64)
+        return (((i * 5 + seed + i // 7) % 3) % 2).reshape(shape)
     vals = [((i * 7 + seed * 3 + (i // 2)) % 3) % 2 if seed % 2 else ((i * 5 + seed) % 3) for i in range(n)]
     return numpy.array(vals, dtype=numpy.int64).reshape(shape) % 2
 
 
-FACT1 = lambda N: numpy.array([1.0, 2.0, 4.0, 7.0, 11.0][:N])  # noqa
-FACT2 = lambda N: numpy.array([[1.0, 7.0], [2.0, 1.0], [4.0, 11.0], [7.0, 2.0], [11.0, 4.0]][:N])  # noqa
+def _tile(base, N):
+    base = numpy.array(base)
+    if N <= len(base):
+        return base[:N].copy()
+    reps = -(-N // len(base))
+    return numpy.concatenate([base] * reps)[:N].copy()
+
+
+FACT1 = lambda N: _tile([1.0, 2.0, 4.0, 7.0, 11.0], N)  # noqa
+FACT2 = lambda N: _tile([[1.0, 7.0], [2.0, 1.0], [4.0, 11.0], [7.0, 2.0], [11.0, 4.0]], N)  # noqa
 
 
 def fact1_missing(N):
@@ -55,7 +66,7 @@ def weights_pair(N):
 
 
 def weights(N):
-    return numpy.array([0.5, 1.0, 2.0, 4.0, 8.0][:N])
+    return _tile([0.5, 1.0, 2.0, 4.0, 8.0], N)
 
 
 def weights_missing(N):
@@ -92,6 +103,13 @@ HARNESSES = {
     "c8": ("ccube", 2, [[2, 2], [2]], [0, 1], ["count", "sum"]),
     "x8": ("xcube", 2, [[2, 2], [2]], None, ["count", "sum"]),
     "x1": ("xcube", 3, [[]], None, ["sum", "stddev"]),
+    # aggregate-function objects built with the documented option tracing=False
+    "c3nt": ("ccube", 3, [[3]], [0], ["count_nt", "sum_nt", "mean_nt"]),
+    # scale: 70 000 rows (beyond 2^16) with several aggregates in one pass; 1 296 sub-cubes (beyond 2^10)
+    "x3big": ("xcube", 70000, [[3]], None, ["count", "sum_w", "mean2_w"]),
+    "c3big": ("ccube", 70000, [[3]], [1], ["count", "sum_w", "mean2"]),
+    "x1300": ("xcube", 3, [[36], [36]], None, ["count"]),
+    "c1300": ("ccube", 3, [[36], [36]], [0, 1], ["count"]),
     "x6": ("xcube", 2, [[3], [2]], None, ["count", "mean2_w"]),
 }
 
@@ -111,6 +129,9 @@ def make_funcs(kind, N, names):
             "sum_p": lambda: F.ffunc_sum(fact1_pair(N), weights_pair(N), True),
             "mean_p": lambda: F.ffunc_mean(fact2_pair(N), weights_pair(N), True),
             "valid_count_p": lambda: F.ffunc_valid_count(fact1_pair(N), None, False, (0, False)),
+            "count_nt": lambda: F.ffunc_count(weights(N), tracing=False),
+            "sum_nt": lambda: F.ffunc_sum(fact1_missing(N), ignore_missing=True, tracing=False),
+            "mean_nt": lambda: F.ffunc_mean(FACT2(N), weights_missing(N), True, (0, False), tracing=False),
         }
     else:
         from catii import xfuncs as F
